@@ -60,6 +60,7 @@ _reg("tier.timestamps", "query", "tier", lambda w, r, a, k: r.timestamps)
 _reg("tier.entries", "query", "tier", lambda w, r, a, k: r.entries)
 _reg("tier.iter", "query", "tier", lambda w, r, a, k: list(r))
 _reg("tier.len", "query", "tier", lambda w, r, a, k: len(r))
+_reg("tier.iterpair", "query", "tier", lambda w, r, a, k: list(zip(r, r)))
 _reg("tier.eq", "query", "tier", lambda w, r, a, k: r == a[0])
 _reg("tier.sort", "mut", "tier", _method("sort"))
 
